@@ -30,6 +30,9 @@ type Config struct {
 	Packages map[string][]string
 	// StmtPointFiles: base names of files that get a scheduling point before every statement.
 	StmtPointFiles []string
+	// StmtPointFuncs: base name -> function names; files listed here get statement points in
+	// these functions only.
+	StmtPointFuncs map[string][]string
 	Dir            string
 	Tags           string
 }
@@ -61,6 +64,7 @@ func DefaultConfig(out string) Config {
 			pkgHarness: {},
 		},
 		StmtPointFiles: []string{"event_cache.go", "data_structure.go"},
+		StmtPointFuncs: map[string][]string{"message.go": {"Serialize", "Verify", "unescapeNIP01"}},
 		Dir:            verifRoot(),
 		Tags:           "verif",
 	}
@@ -108,18 +112,29 @@ func Run(cfg Config) (map[string]string, error) {
 		for i, f := range pkg.Syntax {
 			path := pkg.CompiledGoFiles[i]
 			base := filepath.Base(path)
+			if _, wanted := cfg.StmtPointFuncs[base]; wanted && cfg.StmtPoints && pkg.PkgPath == pkgRepo {
+				delete(skip, base)
+			}
 			if skip[base] || strings.HasSuffix(base, "_test.go") || strings.HasPrefix(base, "zz_verif_") {
 				continue
 			}
 			stmt := false
-			if cfg.StmtPoints {
+			var stmtFuncs map[string]bool
+			if cfg.StmtPoints && pkg.PkgPath == pkgRepo {
 				for _, s := range cfg.StmtPointFiles {
-					if s == base && pkg.PkgPath == pkgRepo {
+					if s == base {
 						stmt = true
 					}
 				}
+				if fns, ok := cfg.StmtPointFuncs[base]; ok {
+					stmt = true
+					stmtFuncs = map[string]bool{}
+					for _, fn := range fns {
+						stmtFuncs[fn] = true
+					}
+				}
 			}
-			in := &instr{pkg: pkg, info: pkg.TypesInfo, fset: pkg.Fset, file: f, stmtPoints: stmt}
+			in := &instr{pkg: pkg, info: pkg.TypesInfo, fset: pkg.Fset, file: f, stmtPoints: stmt, stmtFuncs: stmtFuncs}
 			changed, err := in.rewrite()
 			if err != nil {
 				return nil, fmt.Errorf("%s: %w", path, err)
@@ -155,6 +170,7 @@ type instr struct {
 	fset       *token.FileSet
 	file       *ast.File
 	stmtPoints bool
+	stmtFuncs  map[string]bool
 	buildLines []string
 
 	usedVsched bool
@@ -714,7 +730,7 @@ func (in *instr) addStmtPoints() {
 	}
 	for _, d := range in.file.Decls {
 		fd, ok := d.(*ast.FuncDecl)
-		if !ok || fd.Body == nil {
+		if !ok || fd.Body == nil || (in.stmtFuncs != nil && !in.stmtFuncs[fd.Name.Name]) {
 			continue
 		}
 		clauseBlocks := map[*ast.BlockStmt]bool{}
